@@ -848,6 +848,10 @@ type psInput struct {
 
 // psRun lexes and parses; the tree is nil when lexing or parsing failed.
 func psRun(in psInput) (c Case, tree ast.Expr) {
+	if guardBegin("parse[" + in.tab.name + "] " + strconv.Quote(in.src)) {
+		return crashCase("parse[" + in.tab.name + "] " + strconv.Quote(in.src)), nil
+	}
+	defer guardEnd()
 	c = Case{
 		Human: "parse[" + in.tab.name + "] " + strconv.Quote(in.src),
 		Tags:  []string{"gen:" + in.gen, "ops:" + in.tab.name},
@@ -1822,6 +1826,10 @@ func sortedWords(s string) string {
 }
 
 func dsCase(human string, e ast.Expr, gen string) Case {
+	if guardBegin("desugar " + human) {
+		return crashCase("desugar " + human)
+	}
+	defer guardEnd()
 	before := encExpr(e)
 	in := goNode(e)
 	c := Case{
